@@ -86,6 +86,11 @@ def extract(repo):
     if not dual:
         raise AnalysisError('lp.Model.do_math: dual branch not found')
     mod = ast.Module(body=dual, type_ignores=[])
+    from .common import single_defs, expand_locals, const_num
+    fdefs = single_defs(fi.node)
+
+    def ex(e):
+        return expand_locals(fi.node, e, depth=3, defs=fdefs)
     masks = {}
     counts = {}
     for n in ast.walk(mod):
@@ -93,63 +98,94 @@ def extract(repo):
             v = n.value
             if isinstance(v, ast.Subscript) and isinstance(v.value, ast.Call) and \
                     call_name(v.value) in ('np.where', 'numpy.where') and v.value.args:
-                masks[n.targets[0].id] = v.value.args[0]
+                masks[n.targets[0].id] = ex(v.value.args[0])
+            elif isinstance(v, ast.Call) and call_name(v) in ('np.flatnonzero', 'numpy.flatnonzero') and v.args:
+                masks[n.targets[0].id] = ex(v.args[0])
+            # the number of selected columns: len(idx) / idx.size / idx.shape[0]
             if isinstance(v, ast.Call) and call_name(v) == 'len' and v.args and isinstance(v.args[0], ast.Name):
                 counts[n.targets[0].id] = v.args[0].id
+            elif isinstance(v, ast.Attribute) and v.attr == 'size' and isinstance(v.value, ast.Name):
+                counts[n.targets[0].id] = v.value.id
+            elif isinstance(v, ast.Subscript) and isinstance(v.value, ast.Attribute) and v.value.attr == 'shape' and \
+                    isinstance(v.value.value, ast.Name):
+                counts[n.targets[0].id] = v.value.value.id
     if len(masks) < 4:
         raise AnalysisError('lp.Model.do_math: only %d bound masks found' % len(masks))
+    for k_ in list(masks) + list(counts):
+        fdefs.pop(k_, None)           # the index sets keep their names: they are what the blocks are keyed by
+
+    def block_mask(test):
+        """the index set a block is conditional on:  n > 0 / n / len(idx) > 0 / idx.size ..."""
+        t = test.left if isinstance(test, ast.Compare) else test
+        if isinstance(t, ast.Name):
+            if t.id in counts:
+                return counts[t.id]
+            if t.id in masks:
+                return t.id
+        if isinstance(t, ast.Call) and call_name(t) == 'len' and t.args and isinstance(t.args[0], ast.Name):
+            return t.args[0].id
+        if isinstance(t, ast.Attribute) and t.attr == 'size' and isinstance(t.value, ast.Name):
+            return t.value.id
+        return None
     blocks = []
     for n in ast.walk(mod):
-        if not (isinstance(n, ast.If) and isinstance(n.test, ast.Compare) and isinstance(n.test.left, ast.Name)
-                and n.test.left.id in counts):
+        if not isinstance(n, ast.If):
             continue
-        mask = counts[n.test.left.id]
+        mask = block_mask(n.test)
+        if mask is None or mask not in masks:
+            continue
+        if not any(isinstance(x, ast.Call) and call_name(x).endswith('csr_matrix') for s_ in n.body for x in ast.walk(s_)):
+            continue          # not a block that appends rows (e.g. the sign treatment of the non-positive columns)
         coef = rhs = sense = None
         for st in n.body:
             if not isinstance(st, ast.Assign):
                 continue
             v = st.value
             tname = ntext(st.targets[0])
-            if isinstance(v, ast.Call) and call_name(v) == 'csr_matrix':
-                # csr_matrix((np.array([c] * n), indices, ...))
+            if isinstance(v, ast.Call) and call_name(v).endswith('csr_matrix'):
                 from .r19_solver_siblings import _coef_sign
-                # sign of the +-1 coefficient vector, in any of its spellings; an outer minus flips it
                 first = v.args[0].elts[0] if isinstance(v.args[0], (ast.Tuple, ast.List)) and v.args[0].elts else v.args[0]
+                first = ex(first)
                 flip = 1
                 while isinstance(first, ast.UnaryOp) and isinstance(first.op, ast.USub):
                     flip, first = -flip, first.operand
                 sg = _coef_sign(first)
                 if sg is None:
                     consts = [x for x in ast.walk(first) if isinstance(x, ast.List) and len(x.elts) == 1]
-                    from .common import const_num
                     k = const_num(consts[0].elts[0]) if consts else None
                     sg = None if not k else (1 if k > 0 else -1)
                 if sg is not None:
                     coef = float(flip * sg)
                 if mask not in ntext(v):
                     raise AnalysisError('R14: selector matrix of block %s does not use its own mask' % mask)
-            elif 'const' in tname and isinstance(v, ast.Call) and call_name(v) == 'np.concatenate':
-                last = v.args[0].elts[-1]
-                k = 1.0
-                if isinstance(last, ast.UnaryOp) and isinstance(last.op, ast.USub):
-                    k, last = -1.0, last.operand
-                if isinstance(last, ast.Subscript) and isinstance(last.value, ast.UnaryOp) and \
-                        isinstance(last.value.op, ast.USub):
-                    # (-bound)[mask] == -(bound[mask])
-                    k = -k
-                    last = ast.Subscript(value=last.value.operand, slice=last.slice, ctx=ast.Load())
-                if not (isinstance(last, ast.Subscript) and ntext(last.slice) == mask):
-                    raise AnalysisError('R14: right-hand side of block %s is `%s`' % (mask, ntext(last)[:40]))
-                which = 'ub' if ntext(last.value).endswith('.ub') else 'lb' if ntext(last.value).endswith('.lb') else None
-                if which is None:
-                    raise AnalysisError('R14: right-hand side of block %s is not a bound' % mask)
-                rhs = (k, which)
-            elif 'sense' in tname and isinstance(v, ast.Call) and call_name(v) == 'np.concatenate':
-                last = v.args[0].elts[-1]
-                if isinstance(last, ast.Call) and call_name(last) == 'np.zeros':
-                    sense = 0
-                elif isinstance(last, ast.Call) and call_name(last) == 'np.ones':
-                    sense = 1
+            elif isinstance(v, ast.Call) and call_name(v) in ('np.concatenate', 'np.append', 'np.hstack',
+                                                                'numpy.concatenate', 'numpy.append', 'numpy.hstack'):
+                parts = v.args[0].elts if isinstance(v.args[0], (ast.Tuple, ast.List)) else list(v.args[:2])
+                if len(parts) < 2:
+                    continue
+                last = ex(parts[-1])
+                if 'const' in tname or (isinstance(parts[0], ast.Name) and 'const' in parts[0].id):
+                    k = 1.0
+                    if isinstance(last, ast.UnaryOp) and isinstance(last.op, ast.USub):
+                        k, last = -1.0, last.operand
+                    if isinstance(last, ast.Subscript) and isinstance(last.value, ast.UnaryOp) and \
+                            isinstance(last.value.op, ast.USub):
+                        k = -k
+                        last = ast.Subscript(value=last.value.operand, slice=last.slice, ctx=ast.Load())
+                    if not (isinstance(last, ast.Subscript) and ntext(last.slice) == mask):
+                        raise AnalysisError('R14: right-hand side of block %s is `%s`' % (mask, ntext(last)[:40]))
+                    which = 'ub' if ntext(last.value).endswith('.ub') else 'lb' if ntext(last.value).endswith('.lb') else None
+                    if which is None:
+                        raise AnalysisError('R14: right-hand side of block %s is not a bound' % mask)
+                    rhs = (k, which)
+                elif 'sense' in tname or (isinstance(parts[0], ast.Name) and 'sense' in parts[0].id):
+                    if isinstance(last, ast.Call) and call_name(last) in ('np.zeros', 'numpy.zeros'):
+                        sense = 0
+                    elif isinstance(last, ast.Call) and call_name(last) in ('np.ones', 'numpy.ones'):
+                        sense = 1
+                    elif isinstance(last, ast.Call) and call_name(last) in ('np.full', 'numpy.full') and len(last.args) >= 2 \
+                            and const_num(last.args[1]) in (0, 1):
+                        sense = int(const_num(last.args[1]))
         if coef is None or rhs is None or sense is None:
             raise AnalysisError('R14: block for %s not fully interpreted (coef=%s rhs=%s sense=%s)'
                                 % (mask, coef, rhs, sense))
